@@ -24,7 +24,10 @@ RULE = ("blocks: every (length, size, hop) in a grid x pad kind x entry point (b
         "combinations; non-trivial = a change made after a complete block followed by another complete block. "
         "Round 3: pads and items also include objects given and compared BY IDENTITY through an object table "
         "(builtin function, class, lambda, bound method, partial, object with __call__, generator function, Stream, "
-        "NaN, list, dict, plain object): a callable pad is data. Distinct = distinct case hash.")
+        "NaN, list, dict, plain object): a callable pad is data. Round 5: str / str subclass / bytes / bytearray AS the "
+        "sequence (items = characters / ints; the same characters also from a list and an iterator) with str (empty, "
+        "1 char, several chars) / bytes / tuple / None / int / list pads, left and right 0..3, through every entry "
+        "point; runs of 1025..2049 items. Distinct = distinct case hash.")
 EXHAUSTIVE = {"quick": True, "thorough": False}
 trusted_base = ["item type of the model is the 4-constructor 'item' (ints, strings, None, exact rationals), in the round-2 "
                 "families paired with the Python type name (negative zero is its own type tag, tuples travel as repr); "
